@@ -166,6 +166,26 @@ impl Runner {
         }
     }
 
+    /// Explore a scenario with the primary engine and, additionally, with stateright's BFS; the sets
+    /// of distinct worlds reached by the two engines must be identical (count, xor, sum of fingerprints).
+    pub fn run_scenario_crosschecked(&mut self, sc: std::sync::Arc<StakingScenario>, lim: Limits, required: &[&str]) {
+        let depth = lim.max_depth;
+        let before_states = self.graph_digests.len();
+        self.run_scenario(&sc, lim, required);
+        if !self.violations.is_empty() || !self.machinery.is_empty() || !self.caps.is_empty() {
+            return;
+        }
+        let Some(d) = self.graph_digests.get(before_states).cloned() else { return };
+        let x = crate::xcheck::run_stateright(sc.clone(), depth);
+        let same = d["states"].as_u64() == Some(x.worlds) && d["state_xor"].as_str() == Some(format!("{:032x}", x.xor).as_str()) && d["state_sum"].as_str() == Some(format!("{:032x}", x.sum).as_str());
+        self.runs.push(json!({"crosscheck": "stateright-0.31 bfs", "scenario": sc.name, "depth": depth, "distinct_worlds": x.worlds, "stateright_states_with_depth": x.sr_states, "agrees_with_primary_engine": same, "violation_seen": x.violated}));
+        if !same || x.violated {
+            self.machinery.push(format!("engine cross-check failed for {}: primary engine {} worlds, stateright {} worlds (violated={})", sc.name, d["states"], x.worlds, x.violated));
+        } else {
+            self.notes.push(format!("cross-check: stateright BFS reached the same {} distinct worlds as the primary engine in {} (depth {})", x.worlds, sc.name, depth));
+        }
+    }
+
     /// Record an exhaustive grid sweep.
     #[allow(clippy::too_many_arguments)]
     pub fn grid(&mut self, name: &str, evaluations: u64, distinct_outcomes: u64, accepted: u64, rejected: u64, samples: Vec<Value>, viols: Vec<(Violation, Value)>) {
